@@ -9,6 +9,7 @@ import (
 	"sort"
 	"strconv"
 	"strings"
+	"time"
 
 	"github.com/xujiajun/nutsdb"
 	"github.com/xujiajun/nutsdb/ds/zset"
@@ -128,6 +129,9 @@ func Do(tx *nutsdb.Tx, op prog.Op) (res prog.Res) {
 	}()
 	key := []byte(op.Key)
 	switch op.K {
+	case "adv":
+		core.W.Clock.Advance(time.Duration(op.TS) * time.Second)
+		return prog.Res{V: "ok"}
 	case "put":
 		return okRes(tx.Put(op.B, key, []byte(model.ValueOf(op)), op.TTL))
 	case "putts":
